@@ -888,11 +888,14 @@ pub fn check(ctx: &CheckCtx) -> Option<Found> {
     if let Some(f) = ctx.search("inloop", in_strategy(), t.pick(6000, 200_000), 8, None, run_inloop) {
         return Some(f);
     }
-    if crate::ship::is_child() {
-        return None;
-    }
-    if let Some(f) = ctx.search("sched", case_strategy(), t.pick(4000, 100_000), 6, None, run_case) {
+    // the second build profile runs a short schedule search as well: a wake-up that only exists in debug builds (a
+    // notify inside a debug_assert!) is lost from another thread only (seed c11i)
+    let child = crate::ship::is_child();
+    if let Some(f) = ctx.search("sched", case_strategy(), if child { 1200 } else { t.pick(4000, 100_000) }, 6, None, run_case) {
         return Some(f);
+    }
+    if child {
+        return None;
     }
     let tiny: Vec<(Mode, Vec<Vec<AOp>>)> = match t {
         Tier::Quick => vec![(Mode::RunNone, vec![vec![AOp::StopWakeup]])],
